@@ -4,8 +4,89 @@ SPEC = dict(
     lean_props="SymVerif.Props.C31",
     driver="C31",
     harness="c31.cpp",
-    theorems=[],
-    rule="stub",
-    not_covered=[],
-    assumptions=[],
+    theorems=[
+        "SymVerif.C31.mul_spec",
+        "SymVerif.C31.mul_trunc_high",
+        "SymVerif.C31.pow_spec",
+        "SymVerif.C31.diff_spec",
+        "SymVerif.C31.integrate_spec",
+        "SymVerif.C31.stepList_schedule",
+        "SymVerif.C31.series_invert_spec",
+        "SymVerif.C31.series_log_spec",
+        "SymVerif.C31.series_exp_spec",
+        "SymVerif.C31.exp_taylor",
+        "SymVerif.C31.sin_taylor",
+        "SymVerif.C31.cos_taylor",
+        "SymVerif.C31.series_atan_spec",
+        "SymVerif.C31.series_atanh_spec",
+        "SymVerif.C31.series_sinh_spec",
+        "SymVerif.C31.series_cosh_spec",
+        "SymVerif.C31.isExpOf_unique",
+        "SymVerif.C31.powDispatch_sound",
+        "SymVerif.C31.apply_sound",
+        "SymVerif.C31.series_sound_partial",
+    ],
+    partial=[
+        "SymVerif.C31.series_sound_partial: the composition theorem covers the decidable fragment `Series.covered` "
+        "(arithmetic, integer powers, exp, f^g, log, sin, cos, sec, atan, sinh, cosh, atanh, any nesting; about two "
+        "thirds of the generated cases); tan, tanh, asin, asinh, lambertw and rational powers are stated "
+        "(SymVerif.C31.C31_full = tan_stmt, tanh_stmt, lambertw_stmt, nthroot_stmt, asin_stmt, asinh_stmt) but not "
+        "proved: they need the convergence proofs of the Newton iterations on atan/atanh/w*e^w and of series_nthroot",
+    ],
+    rule="series(f, x, prec) on expressions built through the public API and sent as canonical S-expression dumps; "
+         "distinct = distinct (expression, order) lines; non-trivial = every series line (the `cov` lines, which only "
+         "compare the fragment predicate, are tagged trivial). Tags: fixed (every supported function of x, x+x^2, 2x at "
+         "orders 1-6, 9 and the maximum), depth0..depth3 (random compositions of that nesting depth over sin tan atan "
+         "asin sinh tanh asinh atanh lambertw exp log cos cosh sec, sums, products, quotients by series with non-zero "
+         "constant term, integer powers -3..4, rational powers of 1+..., of perfect powers c^n+..., general powers "
+         "f^g; orders 1-12, thorough 1-20), nonrat (symbolic constants: f(c+...), acos, sqrt(2+...), 2^...; judged "
+         "numerically), removable (quotients whose numerator and denominator vanish at 0), rootval (square roots of "
+         "x^(4m)*(1+...)).",
+    not_covered=[
+        "URatPSeriesFlint / UPSeriesPiranha back-ends (FLINT and Piranha are absent in this build; series() always "
+        "takes the UnivariateSeries path)",
+        "coefficients that are not rational numbers (free symbols, exp(c), log(c), sin(c), pi, irrational roots): the "
+        "Lean model answers SKIP:notRational; such cases are judged only by the numeric diff/subs oracle, at orders <= 9",
+        "Laurent / Puiseux results (negative exponents, cot, csc, 1/x): model answers SKIP:laurent; the property is "
+        "about functions analytic at 0",
+        "the generic Function visitor (repeated differentiation for functions without a dedicated recurrence: erf, "
+        "gamma, acosh, asech, ...) and series_reverse / series_invfunc (Piranha only)",
+        "prec = 0 (unsigned prec-1 wraps around in series_atan/log/asin/...)",
+        "terms of degree >= prec in the returned polynomial: series_asin, series_asinh and scalar products multiply "
+        "without truncation, so as_dict()/as_basic() can contain terms beyond the requested order that are not "
+        "Taylor coefficients; they are mirrored by the model and compared, but the property is only about degrees < prec",
+        "the identification of the formal power-series semantics `Den` (composition in Q[[X]]) with the Taylor "
+        "expansion of the analytic function is the classical theorem and is not formalised",
+        "Expression arithmetic on rationals (add/mul/div of Integer/Rational) is taken as exact field arithmetic "
+        "(C05/C07); it is exercised by the correspondence on every case",
+    ],
+    assumptions=[
+        "std::map<int, Expression> iteration is in increasing key order and Expression ==/!= on rationals is exact "
+        "equality (the model uses dense coefficient lists)",
+        "the hash order of the Mul/Add dictionaries does not influence the result when all exponents are >= 0 "
+        "(truncation modulo x^prec is a ring homomorphism; proved: mul_spec)",
+    ],
+    level_text="Machine-checked (Lean 4, Mathlib PowerSeries) for the recurrences of series.h modelled statement by "
+               "statement over exact rationals: truncated product and power, the step_list precision schedule, the "
+               "Newton inversion series_invert (p*s = 1 mod x^prec), series_log (= integral of s'/s), series_exp "
+               "(Newton iteration on log; equals Mathlib's exp composed with s mod x^prec), _series_sin/_series_cos "
+               "(equal Mathlib's sin/cos composed with s), series_atan/atanh, series_sinh/cosh/sec, including all fast "
+               "paths; and the SeriesVisitor composition: for every expression of a decidable fragment, whenever the "
+               "model of series(e,x,prec) answers, its coefficients below prec are those of the formal Taylor series "
+               "of e. The remaining recurrences (tan, tanh, asin, asinh, lambertw, nthroot) are stated, modelled and "
+               "compared with the implementation on every generated case, and decided per case by two oracles.",
+    level_note="partial: 20 theorems proved; composition theorem series_sound_partial restricted to the fragment "
+               "`covered` (65% of generated cases). Not proved: tan/tanh/lambertw (Newton on inverse functions), "
+               "series_nthroot and its users asin/asinh/rational powers (C31_full). Tie: exact comparison of the "
+               "complete coefficient dictionary (model vs library) plus two model-independent oracles (library "
+               "diff+subs Taylor coefficients; GMP power-series evaluator with textbook recurrences). On the current "
+               "/repo the check reports three genuine defects: series_acos with non-zero constant term (patch "
+               "proposed), series_nthroot sign of the leading-degree shift (patch proposed), and loss of precision "
+               "where a pole cancels, e.g. x/(exp(x)-1) (known-finding proposed).",
+    technique="Lean 4 executable model over core Rat (dense coefficient lists, Except for every exception / "
+              "out-of-fragment case); proofs in PowerSeries Q modulo X^n: congruence calculus, generic Newton-fold "
+              "principle over the step_list schedule, ODE characterisation + uniqueness for exp/log, power-sum "
+              "invariants for sin/cos, mutual structural induction over the expression tree for the visitor. "
+              "Correspondence harness with exact rational output; two independent oracles.",
+    run_timeout=2400,
 )
